@@ -69,6 +69,17 @@ def check():
     lib = library_family.check("C12")
     r["violations"] += lib["violations"]
     r["unreproduced"] += lib["unreproduced"]
+    # (4) the sibling pairs of spec/GrlSiblings.tla (every shape of atom, selector, constant and operator) stored and loaded: what a
+    # rule does after the round trip is what the model computes for it alone
+    import cases_family
+    exp = cases_family.export_cases(60, "GrlSiblings.tla", "MCSiblings.cfg")
+    sstats, smms, slines = cases_family.replay_all(r["gh"], "sib-replay", exp, chunks=8)
+    smms = [m for m in smms if "stored and loaded" in m.get("config", "")]
+    sv, su, _ = cases_family.report("C12", tier, seed, r["gh"], "sib-replay", smms,
+                                    key_of=lambda m: (m["fam"], m["config"], m["what"].split()[0]), case_of=lambda m: m["line"])
+    r["violations"] += sv
+    r["unreproduced"] += su
+    r["cov"]["sibling_pairs_stored_and_loaded"] = {"pairs": exp["n"], "knowledge_bases_stored_and_loaded": 4 * exp["n"], "disagreements": len(smms)}
     cov = r["cov"]
     cov["fault_points"] = {"rule_sets": progs, "stream_bytes": nbytes, "truncation_offsets_tried": cuts, "refused": rejected,
                            "prefixes_that_loaded": loaded, "writer_faults_tried": wtried, "writer_faults_reported_by_store": wrep}
